@@ -32,6 +32,17 @@ Goals == {[g |-> "default"], [g |-> "all"], [g |-> "count", n |-> 0], [g |-> "co
 BrokenKinds == {"missing", "garbage", "truncated", "badheader", "nofilename", "binary"}
 Broken(n) == {[pos |-> 0, how |-> "none"]} \cup {[pos |-> i, how |-> h] : i \in 1..n, h \in BrokenKinds}
 
+\* ... and, for the goals that can span the whole series: a second patch file that is missing (b2, behind the first
+\* broken one) and a patch that does not apply (fail; its file is a good one).  What counts is the order in which a
+\* sequential push would meet them: it stops at the first of them and never looks at anything behind it.
+Extras(n, g, b) ==
+  {<<0, 0>>} \cup
+  (IF g.g = "all" \/ (g.g = "count" /\ g.n = 2)
+   THEN {x \in (0..n) \X (0..n) : /\ x # <<0, 0>>
+                                  /\ (x[1] # 0 => b.pos # 0 /\ x[1] > b.pos)
+                                  /\ (x[2] # 0 => x[2] # b.pos /\ x[2] # x[1])}
+   ELSE {})
+
 \* ---------------- sessions: series of 4 patches on one file, patch i sets cell i from 0 to 1;
 \* `fail` = index of a patch that cannot apply (0 = none)
 NS == 4
@@ -58,8 +69,8 @@ Next ==
      /\ UNCHANGED <<lead, st, plan, ph>>
   \/ /\ Mode = "lines" /\ line # <<>> /\ ~lead /\ lead' = TRUE /\ ph' = 1 /\ UNCHANGED <<line, st, plan>>
   \/ /\ Mode = "states" /\ ph = 0 /\ ph' = 1 /\ UNCHANGED <<line, lead, plan>>
-     /\ \E n \in 1..3 : \E a \in AppliedVariants(n) : \E g \in Goals : \E b \in Broken(n) :
-          st' = [n |-> n, series |-> SeriesN(n), applied |-> a, goal |-> g, broken |-> b]
+     /\ \E n \in 1..3 : \E a \in AppliedVariants(n) : \E g \in Goals : \E b \in Broken(n) : \E x \in Extras(n, g, b) :
+          st' = [n |-> n, series |-> SeriesN(n), applied |-> a, goal |-> g, broken |-> b, b2 |-> x[1], fail |-> x[2]]
   \/ /\ Mode = "sessions" /\ Len(plan) < MaxInv /\ ph' = ph /\ UNCHANGED <<line, lead>>
      /\ \E f \in (IF plan = <<>> THEN {0, 2, 3} ELSE {st.fail}) : \E g \in SessGoals : \E t \in {1, 2} :
           /\ st' = [n |-> NS, fail |-> f]
@@ -68,10 +79,19 @@ Next ==
 \* expected handling of a (series, applied, goal, broken) state
 StateVerdict ==
   LET r == Resolve(st.series, st.applied, st.goal)
-      hit == r.ok /\ st.broken.pos > r.first /\ st.broken.pos <= r.last     \* the broken patch is in the range
-  IN [refused |-> ~r.ok, first |-> r.first, last |-> r.last, hitsBroken |-> hit,
-      exit |-> IF ~r.ok \/ hit THEN 1 ELSE 0,
-      appliedAfter |-> IF ~r.ok \/ hit THEN Len(st.applied) ELSE r.last]
+      InRange(i) == r.ok /\ i > r.first /\ i <= r.last
+      brokenIn == {i \in {st.broken.pos, st.b2} : i # 0 /\ InRange(i)}
+      fb == IF brokenIn = {} THEN 0 ELSE CHOOSE i \in brokenIn : \A j \in brokenIn : i <= j   \* the first broken patch file in the range
+      ff == IF st.fail # 0 /\ InRange(st.fail) THEN st.fail ELSE 0                          \* the patch that does not apply, if in the range
+      hit == fb # 0 /\ (ff = 0 \/ fb < ff)          \* a broken patch file is met before anything fails to apply: clean refusal
+      stop == ff # 0 /\ ~hit                        \* otherwise the push ends at the patch that does not apply (what is behind it is never looked at)
+      \* (C17 speaks of a broken patch file met *before* any patch has failed to apply, C06 of ranges whose patches all
+      \* parse: with a broken patch file *behind* the failing patch neither says whether the run may refuse everything --
+      \* which the parallel driver, loading the whole range first, does -- or ends at the failing patch like the sequential one)
+  IN [refused |-> ~r.ok, first |-> r.first, last |-> r.last, hitsBroken |-> hit, stoppedAt |-> IF stop THEN ff ELSE 0,
+      brokenBehind |-> stop /\ fb # 0,
+      exit |-> IF ~r.ok \/ hit \/ stop THEN 1 ELSE 0,
+      appliedAfter |-> IF ~r.ok \/ hit THEN Len(st.applied) ELSE IF stop THEN ff - 1 ELSE r.last]
 
 \* C09 at the level of the model: composing invocations is the same as one invocation to the furthest goal
 Composes == (Mode = "sessions" /\ plan # <<>>) =>
